@@ -398,7 +398,8 @@ def literal_display_param(rng, tags):
     else:
         keys = rng.sample(["a", "b", "key", "lr", "name"], n)
         text = "{%s}" % ", ".join("%r: %r" % (k, v) for k, v in zip(keys, vals))
-        typ = rng.choice(["dict", "Dict[str, %s]" % _typ_of_elems(kinds)])
+        # (the bare spelling `dict` with a default is kept out: emit.class_ builds Dict(keys=[], values=<the default str>) for it)
+        typ = "Dict[str, %s]" % _typ_of_elems(kinds)
     if rng.random() < 0.4:
         typ = "Optional[%s]" % typ
     tags.append("stratum:literal-display-default:%s:%s" % (shape, "same" if len(set(kinds)) == 1 else "mixed"))
